@@ -60,14 +60,14 @@ def same_block(fn, a, b):
 
 
 # ---- condition helpers ------------------------------------------------------
-def cond_atoms(fn, cond, pol=True):
+def cond_atoms(fn, cond, pol=True, subst=True):
     """normalise a branch condition to (canonical string, polarity) with
     negations and comparisons against 0 / NULL folded; relational operators
     are rendered by Function.canon in terms of < and <= (a > b -> b < a)."""
     j = fn.strip(cond)
     nd = fn.nodes[j]
     if nd["k"] == "Un" and nd["op"] == "!":
-        return cond_atoms(fn, nd["ch"][0], not pol)
+        return cond_atoms(fn, nd["ch"][0], not pol, subst)
     if nd["k"] == "Bin" and nd["op"] in ("==", "!="):
         a, b = nd["ch"]
         za = _is_zero(fn, a)
@@ -75,11 +75,11 @@ def cond_atoms(fn, cond, pol=True):
         if za or zb:
             other = b if za else a
             p = pol if nd["op"] == "!=" else not pol
-            return cond_atoms(fn, other, p)
+            return cond_atoms(fn, other, p, subst)
         if nd["op"] == "!=":
-            return ("(%s)" % " == ".join(sorted([fn.canon(a), fn.canon(b)])), not pol)
-        return ("(%s)" % " == ".join(sorted([fn.canon(a), fn.canon(b)])), pol)
-    return (fn.canon(j), pol)
+            return ("(%s)" % " == ".join(sorted([fn.canon(a, subst=subst), fn.canon(b, subst=subst)])), not pol)
+        return ("(%s)" % " == ".join(sorted([fn.canon(a, subst=subst), fn.canon(b, subst=subst)])), pol)
+    return (fn.canon(j, subst=subst), pol)
 
 
 def _is_zero(fn, i):
@@ -179,3 +179,53 @@ def paired(fn, a, b):
     if fn.cfg.path_exists(pos_of(fn, b), lambda e: e == b, is_barrier=lambda e: e == a):
         return False
     return True
+
+
+def always_before(fn, node, via):
+    """every path from the function entry to `node` passes an element
+    satisfying via"""
+    return not fn.cfg.path_exists((fn.cfg.entry, -1), lambda e: e == node, is_barrier=via)
+
+
+def reads_of_local(fn, decl):
+    """LValueToRValue reads of a local / param"""
+    out = []
+    for i, nd in enumerate(fn.nodes):
+        if nd["k"] == "ICast" and nd.get("ck") == "LValueToRValue":
+            j = nd["ch"][0]
+            while fn.nodes[j]["k"] == "Paren":
+                j = fn.nodes[j]["ch"][0]
+            t = fn.nodes[j]
+            if t["k"] == "DeclRef" and t.get("decl") == decl:
+                out.append(i)
+    return out
+
+
+def defs_of_local(fn, decl):
+    return [d[1] for d in fn.rd.all_defs(decl) if d[1] != "param"]
+
+
+def use_after(fn, call, decl):
+    """reads of local `decl` reachable after `call` without an intervening
+    redefinition; returns list of read nodes"""
+    reads = set(reads_of_local(fn, decl))
+    defs = set()
+    for d in defs_of_local(fn, decl):
+        defs.add(d)
+        # the CFG element of a Var definition is its DeclStmt
+        p = fn.parent[d]
+        if p is not None and fn.nodes[p]["k"] == "Decl" and len(fn.nodes[p]["ch"]) == 1:
+            defs.add(p)
+    hit = []
+    for r in reads:
+        if fn.cfg.path_exists(pos_of(fn, call), lambda e, r=r: e == r, is_barrier=lambda e: e in defs):
+            hit.append(r)
+    return hit
+
+
+def local_of(fn, i):
+    j = fn.strip(i)
+    nd = fn.nodes[j]
+    if nd["k"] == "DeclRef" and nd["ref"] in ("local", "param"):
+        return nd["decl"]
+    return None
